@@ -20,6 +20,9 @@ mod c06;
 mod c03;
 mod der;
 mod c14;
+mod pki;
+mod c01;
+mod c02;
 
 use std::io::{BufRead, Write};
 
@@ -71,6 +74,8 @@ fn lookup(id: &str) -> Option<(&'static str, Gen, Exec)> {
         "C06" => Some(("C06", c06::generate, c06::exec)),
         "C03" => Some(("C03", c03::generate, c03::exec)),
         "C14" => Some(("C14", c14::generate, c14::exec)),
+        "C01" => Some(("C01", c01::generate, c01::exec)),
+        "C02" => Some(("C02", c02::generate, c02::exec)),
         _ => None,
     }
 }
